@@ -34,7 +34,8 @@ ContentKinds == {"pos", "signed", "nx", "nodata", "ede", "big", "servfail", "upe
                                      \* SERVFAIL through Chain.CancelWithRcode, outside the edns response writer
                  "cnamesplit",       \* the alias alone, validated (AD=1); its target is a second, unvalidated exchange:
                                      \* the two are cached apart and every later hit is COMPOSED (AD = AND of the pieces = 0)
-                 "hosts", "as112"}   \* answered ahead of the cache: hosts file entry, AS112 empty zone
+                 "hosts", "as112",   \* answered ahead of the cache: hosts file entry, AS112 empty zone
+                 "nxsig", "nodatasig"} \* validated denials whose ONLY DNSSEC records (SOA RRSIG, NSEC + RRSIG) sit in the authority section
 LocalContent == {"hosts", "as112"}
 
 PktType == [qr: BOOLEAN, opcode: {0, 2, 4}, qd: {0, 1, 2}, an: {0, 1}, rd: BOOLEAN,
@@ -126,7 +127,8 @@ Ladder(p, sentEcs) ==
   ELSE "miss"
 
 (* ---- reply shaping --------------------------------------------------- *)
-BodyHasDnssec(c) == c \in {"signed", "cnamesplit"}
+BodyHasDnssec(c) == c \in {"signed", "cnamesplit", "nxsig", "nodatasig"}
+BodyValidated(c) == c \in {"signed", "nxsig", "nodatasig"}
 Reply(p, ng, rcodeClass, body, fromCancel) ==
   [kind      |-> "reply",
    rcode     |-> rcodeClass,
@@ -139,7 +141,7 @@ Reply(p, ng, rcodeClass, body, fromCancel) ==
    ecs       |-> FALSE,
    foreign   |-> FALSE,
    dnssec    |-> BodyHasDnssec(body) /\ (ng.do \/ p.qtype = "RRSIG"),
-   ad        |-> body = "signed" /\ ~ng.noad,
+   ad        |-> BodyValidated(body) /\ ~ng.noad,
    tc        |-> body = "big" /\ p.proto = "udp" /\ ng.size < 65535,
    body      |-> body]
 
@@ -156,7 +158,7 @@ RawCancel(p, rc, seesOpt, ecsLeft) ==
 
 BareHeader(rc) == [kind |-> "bare", rcode |-> rc]
 
-RcodeOf(c) == CASE c \in {"nx", "as112"} -> "nxdomain" [] c = "servfail" -> "servfail" [] OTHER -> "noerror"
+RcodeOf(c) == CASE c \in {"nx", "as112", "nxsig"} -> "nxdomain" [] c = "servfail" -> "servfail" [] OTHER -> "noerror"
 
 R(o, rl, tail, store) == [o |-> o, spend |-> rl.spend, set |-> rl.set, tail |-> tail, store |-> store]
 Nothing == [spend |-> 0, set |-> FALSE]
